@@ -297,6 +297,22 @@ EXC_PARENT = {
     "HomeAssistantError": "Exception",
     "asyncio.QueueFull": "Exception",
     "json.JSONDecodeError": "ValueError",
+    "RecursionError": "RuntimeError",
+    "UnicodeError": "ValueError",
+    "UnicodeDecodeError": "UnicodeError",
+    "UnicodeEncodeError": "UnicodeError",
+    "OSError": "Exception",
+    "FileNotFoundError": "OSError",
+    "PermissionError": "OSError",
+    "IsADirectoryError": "OSError",
+    "LookupError": "Exception",
+    "IndexError": "Exception",
+    "ZeroDivisionError": "Exception",
+    "ArithmeticError": "Exception",
+    "StopIteration": "Exception",
+    "StopAsyncIteration": "Exception",
+    "RequirementsNotFound": "HomeAssistantError",
+    "InvalidVersion": "ValueError",
 }
 _CANON = {"asyncio.CancelledError": "CancelledError", "asyncio.TimeoutError": "TimeoutError"}
 
